@@ -73,7 +73,21 @@ def run(ctx):
     em = [c for c in cs if c[1].endswith("<impl str>::is_empty")]
     en = [c for c in cs if c[1] == SN + "encode"]
     cmpc = [S.val(o) for bl in f.blocks if not bl["cleanup"] for s in bl["stmts"] if s["rhs"]["rv"] == "bin" and s["rhs"]["op"] in ("Le", "Lt") for o in s["rhs"]["ops"]]
-    ctx.check(len(em) == 1 and len(sw) == 1 and "c:18496" in sw[0][2][1] and len(en) == 1 and en[0][2] == ["&*p1", "p2"] and "c:31" in cmpc, R1,
+    from ..lib import exceeds_facts
+    lim = None
+    for bl in f.blocks:
+        if bl["cleanup"]:
+            continue
+        for s_ in bl["stmts"]:
+            r_ = s_["rhs"]
+            if r_["rv"] == "bin" and r_["op"] in ("Le", "Lt", "Gt", "Ge"):
+                a_, b_ = S.val(r_["ops"][0]), S.val(r_["ops"][1])
+                if "count(" in a_ and re.fullmatch(r"c:\d+", b_):
+                    lim = {"Le": int(b_[2:]), "Lt": int(b_[2:]) - 1, "Gt": int(b_[2:]), "Ge": int(b_[2:]) - 1}[r_["op"]]
+                elif "count(" in b_ and re.fullmatch(r"c:\d+", a_):
+                    lim = {"Ge": int(a_[2:]), "Gt": int(a_[2:]) - 1, "Lt": int(a_[2:]), "Le": int(a_[2:]) - 1}[r_["op"]]
+    ctx.check(lim == 31, R1, "is_valid: at most 31 UTF-16 units", str(lim), "is_valid admits encoded names of up to %s UTF-16 units; a compound-file entry name holds 31" % lim, f.loc(), fn=f.name, key=R1 + "|limit31")
+    ctx.check(len(em) == 1 and len(sw) == 1 and "c:18496" in sw[0][2][1] and len(en) == 1 and en[0][2] == ["&*p1", "p2"] and ("c:31" in cmpc or "c:32" in cmpc), R1,
               "is_valid: non-empty, no leading table marker for streams, encoded length <= 31", "",
               "is_valid lost a clause: is_empty %d, starts_with %s, encode %s, comparison operands %s" % (len(em), [c[2] for c in sw], [c[2] for c in en], cmpc),
               f.loc(), fn=f.name)
@@ -85,6 +99,12 @@ def run(ctx):
     ctx.rule(R2, "Streams::next skips non-stream entries, every *_STREAM_NAME constant of streamname.rs, and every entry whose decoded name is a table")
     consts = {k.rsplit("::", 1)[-1]: v for k, v in prog.consts.items() if k.startswith(SN) and k.endswith("_STREAM_NAME")}
     ctx.floor(R2, "*_STREAM_NAME constants", len(consts), 4)
+    REFN = {"SUMMARY_INFO_STREAM_NAME": "\x05SummaryInformation", "DOCUMENT_SUMMARY_INFO_STREAM_NAME": "\x05DocumentSummaryInformation",
+            "DIGITAL_SIGNATURE_STREAM_NAME": "\x05DigitalSignature", "MSI_DIGITAL_SIGNATURE_EX_STREAM_NAME": "\x05MsiDigitalSignatureEx"}
+    for cn_, lit in sorted(REFN.items()):
+        have = consts.get(cn_, {}).get("lit")
+        ctx.check(have == lit, R2, "%s is the container's name for that stream" % cn_, repr(have), "%s is %r; compound files name that stream %r: the library would look for (and write) "
+                  "the summary / signature under a name no other tool uses" % (cn_, have, lit), key="%s|const|%s" % (R2, cn_))
     f = prog.fn("msi::<internal::stream::Streams<'a, F> as std::iter::Iterator>::next")
     S = Sym(prog, f)
     cs = symcalls(prog, f, S)
@@ -265,6 +285,20 @@ def b64_tables(ctx, rule="B64-TABLE"):
     hdrs = [h for h, bl in lp.items() if any(n.endswith("to_b64") and b in bl for b, n, a, t in cs)]
     ctx.check(bool(hdrs) and all(any(h in dm[r] for h in hdrs) for r in f.returns()), rule, "encode always runs the packing loop", "", "streamname::encode can return without passing through its "
               "packing loop: some names are stored verbatim and collide with names outside the user-stream namespace", f.loc(), fn=f.name, key=rule + "|encode-always")
+    # every character of the name produces output (a cycle of the packing loop without a push loses it), and a packed pair consumes its second character
+    from .loops import cycle_without
+    pushb = {b for b, n, a, t in cs if n.endswith("String::push")}
+    for h in hdrs:
+        ctx.check(not cycle_without(f, h, lp[h], pushb & lp[h]), rule, "encode emits something for every character", "", "an iteration of streamname::encode's loop can finish without pushing "
+                  "anything: that character disappears from the stored name", f.loc(), fn=f.name, key=rule + "|encode-push")
+    pairb = [b for b, n, a, t in cs if n.endswith("char::from_u32") and "c:14336" in a[0]]
+    nexts = [b for b, n, a, t in cs if re.search(r"Peekable<I> as std::iter::Iterator>::next$|Iterator>?::next$", n)]
+    if pairb:
+        later = [b for b in nexts if b in cfg.reachable(f, pairb[0]) and any(b in lp[h] and not (set(f.succs()[b]) - lp[h]) or True for h in hdrs)]
+        # a `next()` that is reachable from the pair's construction without going back through the loop header
+        direct = [b for b in nexts if any(b in cfg.reachable(f, pairb[0], avoid={h}) for h in hdrs)]
+        ctx.check(bool(direct), rule, "a packed pair consumes the peeked character", "", "after packing two characters into one, streamname::encode does not advance past the second: it is encoded again", f.loc(), fn=f.name,
+                  key=rule + "|encode-consume")
     marker = [a for b, n, a, t in cs if n.endswith("String::push") and a[1] == "c:18496"]
     ctx.check(len(marker) == 1 and has_fact(S, marker[0] and [b for b, n, a, t in cs if n.endswith("String::push") and a[1] == "c:18496"][0], r"^p2$", True), rule, "table marker U+4840 only for tables", "",
               "encode does not push U+4840 exactly when is_table", f.loc(), fn=f.name, key=rule + "|marker")
@@ -295,5 +329,13 @@ def b64_tables(ctx, rule="B64-TABLE"):
     okd = len(fb) == 3 and re.fullmatch(r"\(\(%s Sub! c:14336\)\.0 BitAnd c:63\)" % v, fb[0]) and re.fullmatch(r"\(\(%s Sub! c:14336\)\.0 Shr c:6\)" % v, fb[1]) and \
         re.fullmatch(r"\(%s Sub! c:18432\)\.0" % v, fb[2])
     ctx.check(bool(okd), rule, "decode unpacking", "low six bits, then >> 6; single: - 0x4800", "decode unpacks %s" % [x[-40:] for x in fb], f.loc(), fn=f.name, key=rule + "|decode")
+    # every unpacked value is appended to the output
+    pushed = " ".join(a[1] for b, n, a, t in cs if n.endswith("String::push"))
+    missing = [b for b, a0 in fbc if ("call@%d:" % b) not in pushed]
+    ctx.check(not missing, rule, "decode appends every unpacked character", "", "decode computes %d character(s) with from_b64 that are never pushed to the decoded name" % len(missing), f.loc(), fn=f.name, key=rule + "|decode-push")
+    dpush = {b for b, n, a, t in cs if n.endswith("String::push")}
+    for h, body in cfg.natural_loops(f).items():
+        ctx.check(not cycle_without(f, h, body, dpush & body), rule, "decode emits something for every stored character", "", "an iteration of streamname::decode's loop can finish without "
+                  "pushing anything: that character disappears from the decoded name", f.loc(), fn=f.name, key=rule + "|decode-every")
     pk = [a for b, n, a, t in cs if n.endswith("Peekable::<I>::peek")]
     ctx.check(len(pk) == 1, rule, "decode strips one leading marker", "", "decode peeks %d times" % len(pk), f.loc(), fn=f.name)
